@@ -99,16 +99,25 @@ func c16ID(n int) identity.AgentID {
 
 func c16Num(id identity.AgentID) int { return int(id[15]) | int(id[14])<<8 }
 
-func c16NewWorld() *c16World {
+func c16NewWorld() *c16World { return c16NewWorldCfg(true, true, true) }
+
+// c16NewWorldCfg: exitOn / udpOn / icmpOn choose which exit features the agent is configured with
+// (a transit relays every kind of tunnel whatever its own exit configuration).
+func c16NewWorldCfg(exitOn, udpOn, icmpOn bool) *c16World {
 	dir, err := os.MkdirTemp("", "verif-c16-")
 	must(err)
 	cfg := config.Default()
 	cfg.Agent.ID = c16ID(0).String()
 	cfg.Agent.DataDir = dir
 	cfg.Agent.LogLevel = "error"
-	cfg.Exit.Enabled = true // the agent is exit endpoint (loopback only) AND transit
-	cfg.Exit.Routes = []string{"127.0.0.0/8"}
-	cfg.UDP.Enabled = true // … and exit endpoint for UDP associations
+	cfg.Exit.Enabled = exitOn // the agent is exit endpoint (loopback only) AND transit
+	if exitOn {
+		cfg.Exit.Routes = []string{"127.0.0.0/8"}
+	}
+	cfg.UDP.Enabled = udpOn // … and exit endpoint for UDP associations
+	if !icmpOn {
+		cfg.ICMP.Enabled = false
+	}
 	a, err := agent.New(cfg)
 	must(err)
 	return &c16World{a: a, dir: dir, self: c16ID(0), bufs: map[int]*c16Buf{}, conns: map[int]*peer.Connection{}}
